@@ -10,11 +10,13 @@ use crate::scn_incentive::{default_users, FeeKind, IncRoot, IncScn};
 
 pub fn scenario(tier: &str) -> IncScn {
     let mut roots = vec![
-        IncRoot { label: "native-lp/fresh".into(), lp_native: true, fee_kind: FeeKind::NativeDiff, prefix: 0 },
-        IncRoot { label: "native-lp/positions+flow+epoch".into(), lp_native: true, fee_kind: FeeKind::NativeDiff, prefix: 2 },
+        IncRoot { label: "native-lp/fresh".into(), lp_native: true, fee_kind: FeeKind::NativeDiff, prefix: 0, standing_allowance: false },
+        IncRoot { label: "native-lp/positions+flow+epoch".into(), lp_native: true, fee_kind: FeeKind::NativeDiff, prefix: 2, standing_allowance: false },
     ];
+    roots.push(IncRoot { label: "native-lp/flow-ended-after-6-epochs".into(), lp_native: true, fee_kind: FeeKind::NativeDiff, prefix: 3, standing_allowance: false });
     if tier != "quick" {
-        roots.push(IncRoot { label: "native-lp/positions".into(), lp_native: true, fee_kind: FeeKind::Cw20Diff, prefix: 1 });
+        roots.push(IncRoot { label: "native-lp/positions".into(), lp_native: true, fee_kind: FeeKind::Cw20Diff, prefix: 1, standing_allowance: false });
+        roots.push(IncRoot { label: "native-lp/99-unclaimed-epochs".into(), lp_native: true, fee_kind: FeeKind::NativeDiff, prefix: 4, standing_allowance: false });
     }
     IncScn { property: "C13".into(), roots, users: default_users(), reduced: tier == "quick" }
 }
